@@ -36,7 +36,8 @@ class EFLRSetsDict(defaultdict):
     def try_add_set(self, eflr_set: EFLRSet) -> bool:
         """Try to register a new EFLRSet instance in the structure. Return True on success, False otherwise."""
 
-        if eflr_set.set_name in self[eflr_set.__class__]:
+        # (plain 'get': a refused set must not leave an entry for its type behind)
+        if eflr_set.set_name in self.get(eflr_set.__class__, {}):
             return False
         else:
             owner = getattr(eflr_set, 'registered_in', None)  # the structure (of a logical file) the set belongs to
